@@ -13,8 +13,9 @@
    predicted end to end by the specification - Trace_Econf.tla validates such mixed histories
    recorded from the real library.
 
-   Entries are the full records of Writer.tla  [g, k, v, hasv, quoted, cb, ca]  (+ line for parsed ones
-   is not kept: C17 has its own module).                                                      *)
+   Entries are the full records of Writer.tla  [g, k, v, hasv, quoted, cb, ca]  extended by `line`: the
+   1-based number of the physical line on which a parsed entry ends (0 for an entry created by a setter;
+   copied by a merge).  econf_getExtValue reports it together with the object's path (C17).        *)
 EXTENDS Writer, Typed, FiniteSetsExt, SequencesExt
 
 Null == [null |-> TRUE]
@@ -23,6 +24,7 @@ IsObj(o) == o # Null
 \* directory postfixes, root prefix (optional: <<>> or <<string>>)
 DefaultOpt == [join |-> FALSE, python |-> FALSE, pdirs |-> <<>>, cdirs |-> <<>>, root |-> <<>>]
 NewObject(d, c) == [ents |-> <<>>, secs |-> <<>>, path |-> <<>>, d |-> d, c |-> c, opt |-> DefaultOpt]
+WithLine(e, n) == [g |-> e.g, k |-> e.k, v |-> e.v, hasv |-> e.hasv, quoted |-> e.quoted, cb |-> e.cb, ca |-> e.ca, line |-> n]
 
 \* ---------- option strings (lib/libeconf.c econf_newKeyFile_with_options) ----------
 \* items as tokenised by the harness: [name, arg] with name \in {"JOIN","PYTHON","PDIRS","CDIRS","ROOT","BAD"};
@@ -48,7 +50,7 @@ FindE(o, g, k) == LET I == {i \in 1..Len(o.ents) : o.ents[i].g = g /\ o.ents[i].
 AddSecE(secs, g) == IF g = NoGrp \/ (\E i \in 1..Len(secs) : secs[i] = g) THEN secs ELSE Append(secs, g)
 SetE(o, g, k, text) ==
   LET i == FindE(o, g, k) IN
-  IF i = 0 THEN [o EXCEPT !.ents = Append(@, WEnt(g, k, text, TRUE, FALSE, None, None)), !.secs = AddSecE(@, g)]
+  IF i = 0 THEN [o EXCEPT !.ents = Append(@, WithLine(WEnt(g, k, text, TRUE, FALSE, None, None), 0)), !.secs = AddSecE(@, g)]
   ELSE [o EXCEPT !.ents[i].v = text, !.ents[i].hasv = TRUE]
 
 \* ---------- listing as the getters show it ----------
@@ -64,14 +66,22 @@ DumpE(o) == [groups |-> o.secs,
 \* ---------- econf_readFile ----------
 ParArgs(delim, comment, py, jn) == [delim |-> delim, comment |-> IF comment = <<>> THEN <<35>> ELSE comment, python |-> py, join |-> jn]
 ObjectOfParse(st, path, delim, comment) ==
-  [ents |-> EntsOfParse(st), secs |-> st.groups, path |-> path,
+  [ents |-> [i \in 1..Len(st.ents) |-> WithLine(EntsOfParse(st)[i], st.ents[i].line)], secs |-> st.groups, path |-> path,
    d |-> IF delim = <<>> THEN 0 ELSE delim[1], c |-> IF comment = <<>> THEN 35 ELSE comment[1], opt |-> DefaultOpt]
 ReadResultOpt(fs, path, delim, comment, py, jn) ==
   IF path \notin DOMAIN fs THEN [rc |-> "ECONF_NOFILE", obj |-> Null, errline |-> 0]
   ELSE LET st == ParseFile(fs[path], ParArgs(delim, comment, py, jn)) IN
-       IF st.err = "ok" THEN [rc |-> "ECONF_SUCCESS", obj |-> ObjectOfParse(st, path, delim, comment), errline |-> st.line]
+       \* (the object remembers that it was parsed with JOIN_SAME_ENTRIES: how the comments of the joined definitions are combined is
+       \* not specified, see Trace_Econf!TExt)
+       IF st.err = "ok" THEN [rc |-> "ECONF_SUCCESS", obj |-> [ObjectOfParse(st, path, delim, comment) EXCEPT !.opt.join = jn], errline |-> st.line]
        ELSE [rc |-> st.err, obj |-> Null, errline |-> st.line]
 ReadResult(fs, path, delim, comment) == ReadResultOpt(fs, path, delim, comment, FALSE, FALSE)
+
+\* ---------- econf_getExtValue (C17): for an entry of a PARSED FILE the line it ends on, the object's path, the comment block
+\* directly before it, its trailing comment, its value split into blank-trimmed lines (a value starting with a quote: one item)
+ExtOf(o, i) == LET e == o.ents[i] IN
+  [line |-> e.line, file |-> o.path, vals |-> NonEmpty(ExtValues(e)),
+   cb |-> IF e.cb.has THEN e.cb.t ELSE <<>>, ca |-> IF e.ca.has THEN e.ca.t ELSE <<>>]
 
 \* ---------- econf_mergeFiles on full entries (lib/mergefiles.c merge_entries, cpy_file_entry) ----------
 HasGrpE(es, g) == \E i \in 1..Len(es) : es[i].g = g
